@@ -40,6 +40,12 @@ RULE = ("2-d fields (1-3 components, also 4 and labelled scalars for the refusal
         "applying atan2 / hls_to_rgb to the model's exact tokens (1e-9). Oracle on the real code alone: pixel <-> cell lookup through "
         "the extent for every cell centre, arrows at centres/multiplier with the mapped components, hidden cells (invalid OR zero in the filter, with any filter), labels, refusals, "
         "snapshot before/after of the field AND of every filter / colour / lightness field passed in. SI table mirrored in Lean and compared with ubermagutil (table, inverse, decade search). "
+        "HEAP model (arrays as objects: array.copy() / derived fields allocate, the NaN writes of _filter_values and the normalisation of the lightness array happen in place): for "
+        "scalar / contour / vector / lightness / default requests the driver also runs the heap functions; their result is compared with the same artists, and the list of INPUT arrays they "
+        "modified (always empty) with what the snapshot probe saw. SESSIONS: histories of 2-4 field.mpl(scalar_kw=d1, vector_kw=d2) calls on 1-3 fields that SHARE the caller's dictionary "
+        "objects (with / without filter_field, use_color, color_field, colorbar); model = object store of dictionaries (copy / setdefault); every call of the history is compared "
+        "artist by artist, the positional oracle runs on every call with the filter that call was given, and the keys and value identities of the caller's dictionaries after the "
+        "session are compared with the model's store. "
         "non-trivial = plot succeeded on a mesh with at least 2 cells and non-constant values")
 TRUSTED = ["harness/c20.py, harness/fieldio.py + driver JSON glue",
            "matplotlib placement contract (trusted, stated as PixelCovers / quiver contract): with origin='lower' and extent=(x0,x1,y0,y1) "
@@ -47,13 +53,24 @@ TRUSTED = ["harness/c20.py, harness/fieldio.py + driver JSON glue",
            "(X[c],Y[r]); NaN pixels / arrows are not drawn; rendering, colour maps, colorbar, colorwheel",
            "math.atan2, the division by 2*pi and colorsys.hls_to_rgb applied by the harness to the model's exact hue / lightness tokens",
            "ubermagutil's SI table (mirrored in Lean, compared on every run)",
-           "Field.resample (xarray nearest lookup) modelled by C07's resampleNDA"]
+           "Field.resample (xarray nearest lookup) modelled by C07's resampleNDA",
+           "python semantics of dict.copy() / setdefault / ** and of numpy copy / view / boolean-mask assignment as transcribed in Model/C20Session.lean and Model/C20Heap.lean"]
 ASSUMPTIONS = ["exact regime: dyadic geometry (times 1, 1e3 or 1e6), values are small integers",
                "tolerance regime: every edge is at least 0.1 % away from a decade boundary of the SI search; auxiliary fields on a different "
                "resolution have no cell centre on a source-cell face (nearest-neighbour ties are rounding dependent)",
                "lightness of 2-component fields with the default lightness uses Pythagorean vectors so that |v| is rational"]
-UNPROVED = ["plot_pure (plotting does not modify the field): the model is functional by construction; decided by the snapshot probe of the harness only",
-            "rendering (pixels on screen, colour maps, hls_to_rgb, atan2) is matplotlib's / Python's and is trusted",
+UNPROVED = ["plot_pure is PROVED for every plot kind (scalar, contour, vector, lightness, default) on the heap model (Model/C20Heap.lean: every buffer that existed before the call is "
+            "unchanged) and tied to /repo by the snapshot probe + the driver's list of modified input arrays; mesh / labels / mapping / unit are immutable records in the model "
+            "(their immutability in Python is observed by the snapshot probe only)",
+            "heap_plots_refine (heap functions = value model) is proved for scalar, contour, vector and lightness; for the default plot mpl() the heap function (scalar + vector composed "
+            "through a fresh component field) is tied to the code by the correspondence run only (no refinement theorem for the composition)",
+            "sessions: call_is_pure / session_calls_independent cover field.mpl() (the only entry point with dictionary arguments); the direct methods take plain keyword arguments and have no "
+            "state to share (python-level fact, observed by the `history:plain-plot-of-another-field-before` stream only)",
+            "rendering (pixels on screen, colour maps, colorsys.hls_to_rgb, atan2, the division of the hue by 2*pi) is matplotlib's / Python's and is trusted; symmetric_clim, colorbar, "
+            "colorwheel, savefig are not modelled (they do not change the arrays, positions or labels handed over)",
+            "contour: matplotlib's own requirement of at least 2 x 2 cells is outside the model (contour_accepts speaks about the arguments handed over)",
+            "resample of an auxiliary field needs labels the Field constructor accepts (C07.metaOk), an explicit hypothesis of AuxOk; nearest-neighbour TIES (a centre exactly on a source "
+            "face) follow C07's tie rule in the model and are only generated in the exact regime",
             "former defects D91 (explicit filter drew invalid cells), D92 (lightness_field rescaled in place), D93 (lightness on a single-cell axis raised) "
             "are fixed in /repo; their witnesses are regression cases in harness/corpus/C20"]
 BUDGET = {"quick": 85, "thorough": 900}
@@ -316,11 +333,53 @@ def refusal_cases(rng):
         yield c
 
 
+def gen_session(rng, tier):
+    """a history of `field.mpl(...)` calls that share keyword-dictionary OBJECTS (scalar_kw / vector_kw) and a mesh"""
+    regime = rng.choice(["exact", "exact", "tol"])
+    geo, scale = gen_geometry(rng, regime, 5)
+    d = geo["dims"] or ["x", "y"]
+    third = next(x for x in DIMS if x not in d)
+    fields = []
+    for _ in range(rng.randint(1, 3)):
+        nv = rng.choice([1, 1, 2, 3, 3])
+        labels = rng.sample(LABELS, nv) if (nv > 1 and rng.random() < 0.5) else None
+        lab = labels or default_labels(nv)
+        vmap = None
+        if nv > 1 and rng.random() < 0.9:
+            targets = list(d) + [third] * (nv - 2)
+            rng.shuffle(targets)
+            vmap = [[l, t] for l, t in zip(lab, targets)]
+        fields.append(dict(nvdim=nv, labels=labels, vmap=vmap, density=rng.choice([1.0, 0.8, 0.6, 0.4]), sub=rng.getrandbits(32)))
+    dicts = []
+    for _ in range(rng.randint(0, 2)):  # scalar_kw objects
+        dd = dict(role="s", filter=None, colorbar=rng.choice([None, False, False]))
+        if rng.random() < 0.5:
+            dd["filter"] = gen_aux(rng, regime, geo["n"], "filter")
+            dd["filter"]["bad"] = None
+        dicts.append(dd)
+    for _ in range(rng.randint(0, 2)):  # vector_kw objects
+        dd = dict(role="v", use_color=rng.choice([None, None, True, False]), color_field=None)
+        if rng.random() < 0.3:
+            dd["color_field"] = gen_aux(rng, regime, geo["n"], "colour")
+            dd["color_field"]["bad"] = None
+            dd["use_color"] = True
+        dicts.append(dd)
+    si = [k for k, dd in enumerate(dicts) if dd["role"] == "s"]
+    vi = [k for k, dd in enumerate(dicts) if dd["role"] == "v"]
+    reqs = []
+    for _ in range(rng.randint(2, 4)):
+        reqs.append(dict(field=rng.randrange(len(fields)), mult=gen_mult(rng, regime, scale, geo) if rng.random() < 0.5 else None,
+                         skw=rng.choice(si + [None]) if si else None, vkw=rng.choice(vi + [None]) if vi else None))
+    return dict(kind="session", regime=regime, mesh=geo, fields=fields, dicts=dicts, reqs=reqs, sub=rng.getrandbits(32))
+
+
 def cases(rng, tier):
     yield dict(kind="table", sub=rng.getrandbits(32))
     yield from refusal_cases(rng)
+    for _ in range(150 if tier == "quick" else 600):
+        yield gen_session(rng, tier)
     # (the former defects D91-D93 have one deterministic regression witness each in harness/corpus/C20, run first)
-    n = 1800 if tier == "quick" else 7000
+    n = 1400 if tier == "quick" else 7000
     for _ in range(n):
         yield gen_case(rng, tier)
 
@@ -822,9 +881,111 @@ def run_refusal_mesh(case):
     return obs
 
 
+def dict_state(dd):
+    """what can be observed of a caller's dictionary: its keys and the identity of its values"""
+    return sorted((k, id(v)) for k, v in dd.items())
+
+
+def run_session(case):
+    """a history of f.mpl(scalar_kw=<shared dict>, vector_kw=<shared dict>) calls"""
+    rng = random.Random(case["sub"])
+    obs = {"oracle": [], "tags": ["kind:session", f"regime:{case['regime']}", f"calls:{len(case['reqs'])}"], "status": "ok", "steps": []}
+    fail = obs["oracle"].append
+    fields = []
+    for fs in case["fields"]:
+        fc = dict(kind="default", regime=case["regime"], mesh=case["mesh"], nvdim=fs["nvdim"], labels=fs["labels"], vmap=fs["vmap"],
+                  density=fs["density"], path="direct")
+        try:
+            fields.append(build_field(fc, random.Random(fs["sub"])))
+        except Exception as e:  # noqa: BLE001
+            obs["status"] = "skip"
+            obs["tags"].append("build-rejected:" + type(e).__name__)
+            return obs
+    f0 = fields[0]
+    dicts, dj, daux = [], [], []
+    for dd in case["dicts"]:
+        py, js, ax = {}, {}, {}
+        if dd["role"] == "s":
+            if dd.get("colorbar") is not None:
+                py["colorbar"] = js["colorbar"] = dd["colorbar"]
+            if dd.get("filter"):
+                g = build_aux(dd["filter"], f0, rng, case["regime"])
+                py["filter_field"] = g
+                js["filter_field"] = fieldio.field_json(g)
+                ax["filter"] = g
+        else:
+            if dd.get("use_color") is not None:
+                py["use_color"] = js["use_color"] = dd["use_color"]
+            if dd.get("color_field"):
+                g = build_aux(dd["color_field"], f0, rng, case["regime"])
+                py["color_field"] = g
+                js["color_field"] = fieldio.field_json(g)
+                ax["colour"] = g
+        dicts.append(py)
+        dj.append(js)
+        daux.append(ax)
+    obs["fields"] = [fieldio.field_json(f) for f in fields]
+    obs["dicts"] = dj
+    before = [dict_state(dd) for dd in dicts]
+    snaps = [snapshot(f) for f in fields]
+    snaps_aux = [(k, nm, g, snapshot(g)) for k, ax in enumerate(daux) for nm, g in ax.items()]
+    try:
+        for k, rq in enumerate(case["reqs"]):
+            f = fields[rq["field"]]
+            ax = new_rec_axes()
+            step = dict(status=None, res=None, field=obs["fields"][rq["field"]])
+            skw = None if rq["skw"] is None else dicts[rq["skw"]]
+            vkw = None if rq["vkw"] is None else dicts[rq["vkw"]]
+            try:
+                f.mpl(ax=ax, multiplier=mult_value(rq.get("mult")), scalar_kw=skw, vector_kw=vkw)
+                step["status"] = "ok"
+            except Exception as e:  # noqa: BLE001
+                step["status"] = "err"
+                step["exc"] = type(e).__name__
+            if step["status"] == "ok":
+                res = read_axes(ax)
+                res["rec"] = ax.rec
+                step["res"] = res
+                um = None
+                pre = prefix_of_label(res["labels"][0], f.mesh.region.dims[0], f.mesh.region.units[0])
+                for p, e in SI:
+                    if p == pre:
+                        um = Fraction(10) ** e
+                if um is None:
+                    fail(f"call {k}: x label {res['labels'][0]!r} does not announce an SI prefix")
+                elif rq.get("mult") is not None and um != dec(mult_value(rq["mult"])):
+                    fail(f"call {k}: labels announce multiplier {float(um)!r}, the call asked for {rq['mult']}")
+                else:
+                    step["used_mult"] = Q(um)
+                    flt = None if rq["skw"] is None else daux[rq["skw"]].get("filter")
+                    sub_fail = []
+                    oracle(dict(kind="default", vdims_arg=None), f, flt, None, res, um, sub_fail.append)
+                    for t in sub_fail:
+                        fail(f"call {k} of the session (after {k} earlier mpl() calls): {t}")
+            obs["steps"].append(step)
+            plt.close("all")
+        for f, sn in zip(fields, snaps):
+            kk = same_snapshot(sn, snapshot(f))
+            if kk is not None:
+                fail(f"plotting modified the field: {kk} changed")
+        for k, nm, g, sn in snaps_aux:
+            kk = same_snapshot(sn, snapshot(g))
+            if kk is not None:
+                fail(f"plotting modified the {nm} field passed in a keyword dictionary: {kk} changed")
+        obs["dict_keys_after"] = [sorted(dd.keys()) for dd in dicts]
+        obs["dict_same_objects"] = [dict_state(dd) == b or sorted(dd.keys()) != [x for x, _ in b] for dd, b in zip(dicts, before)]
+    finally:
+        plt.close("all")
+    nn = [int(k) for k in f0.mesh.n]
+    obs["nontrivial"] = any(st["status"] == "ok" for st in obs["steps"]) and nn[0] * nn[1] >= 2
+    return obs
+
+
 def run_impl(case):
     if case["kind"] == "table":
         return run_table(case)
+    if case["kind"] == "session":
+        return run_session(case)
     if str(case.get("refusal", "")).startswith("ndim"):
         return run_refusal_mesh(case)
     rng = random.Random(case["sub"])
@@ -886,13 +1047,19 @@ def run_impl(case):
                 obs["mpl_refused"] = ax_used.mpl_refused
         obs["res"] = res
         # ---- purity
-        k = same_snapshot(snap, snapshot(f))
+        snap_after = snapshot(f)
+        k = same_snapshot(snap, snap_after)
         if k is not None:
             fail(f"plotting modified the field: {k} changed")
+        mutated = [f"field.{key}" for key in ("array", "valid") if not np.array_equal(snap[key], snap_after[key], equal_nan=(key == "array"))]
         for nm, g, s in snaps_aux:
-            ka = same_snapshot(s, snapshot(g))
+            s_after = snapshot(g)
+            ka = same_snapshot(s, s_after)
             if ka is not None:
                 fail(f"plotting modified the {nm} passed in: {ka} changed")
+            short = "filter" if nm == "filter_field" else "aux"
+            mutated += [f"{short}.{key}" for key in ("array", "valid") if not np.array_equal(s[key], s_after[key], equal_nan=(key == "array"))]
+        obs["mutated"] = sorted(mutated)
         # ---- refusals / successes the property pins
         expect = expectation(case, f, flt, aux)
         obs["expect"] = expect
@@ -982,6 +1149,12 @@ def expectation(case, f, flt, aux):
 def model_requests(case, obs):
     if case["kind"] == "table":
         return [dict(op="si_table")] + [dict(op="si_multiplier", v=v) for v in obs["mvals"]]
+    if case["kind"] == "session":
+        if obs.get("status") == "skip" or "fields" not in obs:
+            return []
+        return [dict(op="session", fields=obs["fields"], dicts=obs["dicts"],
+                     reqs=[dict(field=rq["field"], mult=(None if rq.get("mult") is None else Q(dec(mult_value(rq["mult"])))),
+                                skw=rq["skw"], vkw=rq["vkw"]) for rq in case["reqs"]])]
     if obs.get("status") == "skip" or "field" not in obs:  # not built / adapter crashed (reported by core as a failure)
         return []
     if str(case.get("refusal", "")).startswith("ndim"):
@@ -1157,6 +1330,28 @@ def compare(case, obs, rs):
                 dis.append(f"si_multiplier({float(F(v))!r}): ubermagutil {a} vs model {b}")
                 break
         return dis
+    if case["kind"] == "session":
+        if obs.get("status") == "skip" or "fields" not in obs:
+            return []
+        r = rs[0]
+        dis = []
+        if len(r["results"]) != len(obs["steps"]):
+            return [f"session: {len(obs['steps'])} calls impl vs {len(r['results'])} model"]
+        for k, (step, mr) in enumerate(zip(obs["steps"], r["results"])):
+            st = "ok" if "ok" in mr else "err"
+            if st != step["status"]:
+                dis.append(f"session call {k}: impl {step['status']} ({step.get('exc')}) vs model {st} {mr.get('err', '')}")
+                continue
+            if st == "ok" and len(r["leftovers"][k]) <= 1:
+                d = compare_calls(dict(regime=case["regime"]), dict(res=step["res"], used_mult=step.get("used_mult"), field=step["field"]),
+                                  mr["ok"], r["mults"][k])
+                dis += [f"session call {k}: {t}" for t in d[:2]]
+        if "dict_keys_after" in obs:
+            if [sorted(x) for x in r["keys"]] != obs["dict_keys_after"]:
+                dis.append(f"caller's keyword dictionaries after the session hold the keys {obs['dict_keys_after']}, the model says {r['keys']}")
+            if not all(obs["dict_same_objects"]):
+                dis.append("a value stored in a caller's keyword dictionary was replaced during the session (the model leaves them untouched)")
+        return dis
     if obs.get("status") == "skip" or "field" not in obs:
         return []
     if str(case.get("refusal", "")).startswith("ndim"):
@@ -1177,6 +1372,17 @@ def compare(case, obs, rs):
             d = []
         else:
             d = compare_calls(case, obs, r["ok"], r.get("mult"))
+        if "heap" in r:
+            # the same request on the heap model (arrays as objects, in-place NaN writes): same outcome, same arguments
+            # handed over, and the same input arrays modified (none) as the snapshot probe saw
+            hp = r["heap"]
+            sth = "ok" if "ok" in hp else "err"
+            if sth != st:
+                d = d + [f"heap model of {case['kind']}: {sth}, value model: {st}"]
+            elif sth == "ok" and obs.get("res") is not None and obs["status"] == "ok":
+                d = d + [f"heap model: {t}" for t in compare_calls(case, obs, hp["ok"], r.get("mult"))]
+            if "mutated" in obs and sorted(r.get("mutated", [])) != obs["mutated"]:
+                d = d + [f"input arrays modified by the call: impl {obs['mutated']} vs heap model {sorted(r.get('mutated', []))}"]
         if not d:
             return []
         best = best or d
@@ -1193,6 +1399,10 @@ def known(case, text):
 
 def search(case, rng):
     """neighbours: the same inputs under every plot kind, then fresh cases of the same kind"""
+    if case["kind"] == "session":
+        for _ in range(200):
+            yield gen_session(rng, "quick")
+        return
     if case["kind"] == "table" or "mesh" not in case:
         return
     for kind in ("scalar", "vector", "contour", "lightness", "default"):
